@@ -466,8 +466,8 @@ def named_flags(bits):
     return "{" + ", ".join("non-linear" if f == "linear" else f for f in on) + "}"
 
 
-def s_raw_rows(ctx, rows_le, cols_ge, rows_comb, exhaustive):
-    """order axioms and combine on raw theories, from rows computed with the real objects"""
+def s_raw_order(ctx, rows_le, cols_ge):
+    """order axioms on raw theories, from rows of the <= matrix computed with the real objects"""
     N = 1 << NF
     reported = {"t": 0, "a": 0, "c": 0}
     for i, row in rows_le.items():
@@ -510,7 +510,12 @@ def s_raw_rows(ctx, rows_le, cols_ge, rows_comb, exhaustive):
                              "%s <= %s <= %s but not first <= third" % (
                                  named_flags(ibits(i)), named_flags(ibits(j)), named_flags(ibits(k))),
                              {"kind": "theory-order", "theories": [ibits(i), ibits(j), ibits(k)]})
-    # combine: upper bound for both, from the rows
+    ctx.evaluations += len(rows_le) * N
+
+
+def s_raw_combine(ctx, rows_le, rows_comb):
+    """combine is an upper bound of both arguments (and stays well formed), from rows of the combine matrix"""
+    N = 1 << NF
     nbad = 0
     for i, row in rows_comb.items():
         a_bits = ibits(i)
@@ -541,10 +546,7 @@ def s_raw_rows(ctx, rows_le, cols_ge, rows_comb, exhaustive):
             if not ok and nbad < 400:
                 nbad += 1
                 check_combine_pair(ctx, a_bits, b_bits)
-    ctx.evaluations += len(rows_le) * N + len(rows_comb) * N
-    if exhaustive:
-        ctx.extra["exhaustive"] = True
-        ctx.extra["exhaustive_what"] = "all 4096^2 theory pairs for <= and combine, all 4096^3 triples for transitivity"
+    ctx.evaluations += len(rows_comb) * N
 
 
 def s_raw_sampled(ctx, n_triples):
@@ -756,30 +758,35 @@ def sort_features(ty, via, need):
         need.setdefault("custom_type", via)
 
 
-def has_nonconstant(f, memo):
-    """does the term contain a symbol or a function application (i.e. is it not a ground numeral expression)"""
-    stack = [f]
-    seen = []
+def free_symbols(f, memo):
+    """ids of the symbols (function names included) that occur free in `f`; own computation, bottom-up"""
+    stack = [(f, False)]
     while stack:
-        n = stack.pop()
+        n, done = stack.pop()
         k = id(n)
         if k in memo:
-            if memo[k]:
-                for s in seen:
-                    memo[s] = True
-                memo[id(f)] = True
-                return True
             continue
-        if n.is_symbol() or n.is_function_application():
-            memo[k] = True
-            memo[id(f)] = True
-            return True
-        seen.append(k)
-        stack.extend(n.args())
-    for s in seen:
-        memo.setdefault(s, False)
-    memo[id(f)] = False
-    return False
+        if not done:
+            stack.append((n, True))
+            for c in n.args():
+                if id(c) not in memo:
+                    stack.append((c, False))
+            continue
+        if n.is_symbol():
+            r = frozenset([k])
+        else:
+            r = frozenset().union(*[memo[id(c)] for c in n.args()]) if n.args() else frozenset()
+            if n.is_function_application():
+                r = r | frozenset([id(n.function_name())])
+            elif n.is_quantifier():
+                r = r - frozenset(id(v) for v in n.quantifier_vars())
+        memo[k] = r
+    return memo[id(f)]
+
+
+def has_nonconstant(f, memo):
+    """does the term contain a free symbol (i.e. is it not a ground expression)"""
+    return len(free_symbols(f, memo)) > 0
 
 
 def node_sort(n, memo):
@@ -792,9 +799,9 @@ def node_sort(n, memo):
         r = n.symbol_type()
     elif n.is_function_application():
         r = n.function_name().symbol_type().return_type
-    elif n.is_int_constant():
+    elif t == op.INT_CONSTANT:
         r = INT
-    elif n.is_real_constant() or n.is_algebraic_constant():
+    elif t in (op.REAL_CONSTANT, op.ALGEBRAIC_CONSTANT):
         r = REAL
     elif t == op.TOREAL:
         r = REAL
@@ -819,12 +826,16 @@ def node_sort(n, memo):
 
 
 def features(f):
-    """-> (need: feature -> what introduced it, quantified?)   independent of pysmt.oracles"""
-    need = {}
+    """-> (need, quantified?, extra)   independent of pysmt.oracles.
+    `need`: feature -> what introduced it, exactly the definition of lean/PySMT/Spec/Features.lean (`features`);
+    `extra`: needs derived from operand sorts (an arithmetic operator over Int/Real operands needs that
+    arithmetic, int.to.str / str.substr / str.at have integer operands) -- implied by `need` on well-sorted
+    formulas, checked all the same."""
+    need, extra = {}, {}
     quant = False
     seen = set()
     stack = [f]
-    nc_memo, sort_memo = {}, {}
+    fv_memo, sort_memo = {}, {}
     while stack:
         n = stack.pop()
         if id(n) in seen:
@@ -836,14 +847,17 @@ def features(f):
             sort_features(n.symbol_type(), "sort-of-symbol", need)
         elif n.is_function_application():
             need.setdefault("uninterpreted", "op:FUNCTION")
-            sort_features(n.function_name().symbol_type(), "function-signature", need)
-        elif n.is_int_constant():
+            ft = n.function_name().symbol_type()
+            for p in ft.param_types:
+                sort_features(p, "function-signature", need)
+            sort_features(ft.return_type, "function-signature", need)
+        elif t == op.INT_CONSTANT:
             need.setdefault("integer_arithmetic", "constant")
-        elif n.is_real_constant() or n.is_algebraic_constant():
+        elif t in (op.REAL_CONSTANT, op.ALGEBRAIC_CONSTANT):
             need.setdefault("real_arithmetic", "constant")
-        elif n.is_bv_constant():
+        elif t == op.BV_CONSTANT:
             need.setdefault("bit_vectors", "constant")
-        elif n.is_string_constant():
+        elif t == op.STR_CONSTANT:
             need.setdefault("strings", "constant")
         elif n.is_quantifier():
             quant = True
@@ -856,8 +870,10 @@ def features(f):
             need.setdefault("integer_arithmetic", "op:" + name)
         elif t in op.STR_OPERATORS or t in op.STR_RELATIONS:
             need.setdefault("strings", "op:" + name)
-            if t in INT_RESULT or t in (op.INT_TO_STR, op.STR_SUBSTR, op.STR_CHARAT):
+            if t in INT_RESULT:
                 need.setdefault("integer_arithmetic", "op:" + name)
+            elif t in (op.INT_TO_STR, op.STR_SUBSTR, op.STR_CHARAT):
+                extra.setdefault("integer_arithmetic", "op:" + name)
         elif t == op.TOREAL:
             need.setdefault("real_arithmetic", "op:" + name)
             need.setdefault("integer_arithmetic", "op:" + name)
@@ -870,19 +886,19 @@ def features(f):
         if t in ARITH_OPS:
             s = node_sort(n.arg(0), sort_memo)
             if s is not None and s.is_int_type():
-                need.setdefault("integer_arithmetic", "op:" + name)
+                extra.setdefault("integer_arithmetic", "op:" + name)
             elif s is not None and s.is_real_type():
-                need.setdefault("real_arithmetic", "op:" + name)
+                extra.setdefault("real_arithmetic", "op:" + name)
         if t == op.TIMES:
-            if sum(1 for a in n.args() if has_nonconstant(a, nc_memo)) >= 2:
+            if sum(1 for a in n.args() if has_nonconstant(a, fv_memo)) >= 2:
                 need.setdefault("nonlinear", "op:TIMES")
         elif t == op.DIV:
-            if has_nonconstant(n.arg(1), nc_memo):
+            if has_nonconstant(n.arg(1), fv_memo):
                 need.setdefault("nonlinear", "op:DIV")
         elif t == op.POW:
             need.setdefault("nonlinear", "op:POW")
         stack.extend(n.args())
-    return need, quant
+    return need, quant, extra
 
 
 def need_bits(need):
@@ -982,7 +998,7 @@ class Shapes:
         A(("times-linear", m.Equals(m.Times(m.Plus(I(2), I(3)), x), y)))
         A(("times-linear", m.LE(m.Times(r, R(Fraction(1, 3))), s)))
         A(("pow", m.LE(m.Pow(r, R(2)), R(4))))
-        A(("pow", m.LE(m.Pow(x, I(3)), I(8))))
+        A(("pow", m.LE(m.Pow(m.Plus(r, s), R(3)), R(8))))
         # difference logic shaped (not a covered feature, but must still be covered by the answer)
         A(("difference", m.LE(m.Minus(x, y), I(3))))
         A(("difference", m.LT(m.Minus(r, s), R(3))))
@@ -998,7 +1014,7 @@ class Shapes:
         A(("const-array", m.Equals(m.Select(m.Array(INT, R(0), {I(1): r}), x), s)))
         A(("const-array", m.Equals(m.Select(m.Select(m.Array(INT, m.Array(INT, m.BV(1, 8))), x), y), v)))
         A(("const-array", m.Equals(m.Store(self.aia, x, m.Array(INT, v)), self.aia)))
-        A(("const-array", m.Equals(m.Select(m.Array(REAL, m.Bool(True)), r), b)))
+        A(("const-array", m.Iff(m.Select(m.Array(REAL, m.Bool(True)), r), b)))
         A(("const-array", m.Equals(m.Select(m.Array(STRING, I(0)), st), x)))
         A(("arrays", m.Equals(m.Select(self.aii, x), y)))
         A(("arrays", m.GT(m.Select(self.abr, v), R(0))))
@@ -1041,7 +1057,10 @@ class Shapes:
 def detect_check(ctx, env, tag, f, stats):
     from pysmt.oracles import get_logic
     from pysmt.smtlib.script import smtlibscript_from_formula
-    need, quant = features(f)
+    core, quant, extra = features(f)
+    core_bits = need_bits(core)
+    need = dict(extra)
+    need.update(core)
     nb = need_bits(need)
     w = None
     try:
@@ -1076,8 +1095,10 @@ def detect_check(ctx, env, tag, f, stats):
                      "get_theory(`%s`) = %s is ill-formed" % (f.serialize()[:160], named_flags(hb)), rp)
     # 2. the logic
     lname = "-"
+    lo = None
     try:
         lg = get_logic(f, env)
+        lo = ("ok", lg)
         lname = lg.name
         if not miss_t:
             missing("get_logic", tbits(lg.theory), lg.quantifier_free, lg.name)
@@ -1085,6 +1106,7 @@ def detect_check(ctx, env, tag, f, stats):
     except NoLogicAvailableError:
         stats["no_logic"] = stats.get("no_logic", 0) + 1
         lname = "none"
+        lo = ("err", "NoLogicAvailableError")
     except Exception as e:
         ctx.report_s({"oracle": "get_logic", "missing": "exception", "via": type(e).__name__},
                      "get_logic(`%s`) raises %s" % (f.serialize()[:160], type(e).__name__), rp)
@@ -1106,7 +1128,7 @@ def detect_check(ctx, env, tag, f, stats):
     ctx.count("detect_logic_" + lname)
     for ft in need:
         ctx.count("detect_feature_" + ft)
-    return (w, hb, nb, quant)
+    return (w, hb, core_bits, quant, lo)
 
 
 def detection(ctx, lean_caps):
@@ -1161,12 +1183,14 @@ def detection(ctx, lean_caps):
     # K for the detection model, when the driver has it
     if lean_caps and "theory" in lean_caps:
         b = Batch()
-        for f, (w, hb, nb, quant) in kcases:
+        for f, (w, hb, nb, quant, lo) in kcases:
             if w is None:
                 continue
             b.add("theory " + w, hb, "theory of " + f.serialize()[:200])
             if "features" in lean_caps:
                 b.add("features " + w, nb + (" q" if quant else " qf"), "features of " + f.serialize()[:200])
+            if "detect" in lean_caps and lo is not None:
+                b.add("detect " + w, show_outcome(lo), "get_logic of " + f.serialize()[:200])
         b.run(ctx, "detection")
     else:
         ctx.count("k_detection_skipped_no_lean_model", len(kcases))
@@ -1224,13 +1248,27 @@ def run(ctx):
         rows_le.update(compute_rows(ctx, "le", sorted(more - set(idx))))
         cols_ge = compute_rows(ctx, "ge", idx)
         rows_comb = compute_rows(ctx, "comb", idx)
-        s_raw_rows(ctx, rows_le, cols_ge, rows_comb, False)
+        s_raw_order(ctx, rows_le, cols_ge)
+        s_raw_combine(ctx, rows_le, rows_comb)
         s_raw_sampled(ctx, 40000)
+        if lean_ok:
+            k_rows(ctx, rows_le, rows_comb, init_ok)
     else:
         rows_le = compute_rows(ctx, "le", range(N))
         cols_ge = compute_rows(ctx, "ge", range(N))
-        rows_comb = compute_rows(ctx, "comb", range(N))
-        s_raw_rows(ctx, rows_le, cols_ge, rows_comb, True)
+        s_raw_order(ctx, rows_le, cols_ge)
+        del cols_ge
+        if lean_ok:
+            lean_ok = k_rows(ctx, rows_le, {}, init_ok)
+        step = 256
+        for start in range(0, N, step):           # the combine matrix in slices (200 MB as text otherwise)
+            rows_comb = compute_rows(ctx, "comb", range(start, min(N, start + step)))
+            s_raw_combine(ctx, rows_le, rows_comb)
+            if lean_ok:
+                lean_ok = k_rows(ctx, {}, rows_comb, init_ok)
+        ctx.extra["exhaustive"] = True
+        ctx.extra["exhaustive_what"] = ("all 4096^2 theory pairs for <= and combine, all 4096^3 triples for "
+                                        "transitivity, all 79^3 triples of named logics")
         s_raw_sampled(ctx, 200000)
     # table pairs for combine (named theories; always)
     ths = sorted({tbits(l.theory) for l in T.all_named})
@@ -1238,8 +1276,6 @@ def run(ctx):
         for b in ths:
             check_combine_pair(ctx, a, b)
             ctx.case(("combine", a, b) if a != b else None)
-    if lean_ok:
-        k_rows(ctx, rows_le, rows_comb, init_ok)
     # ---- selection
     selection(ctx, T, lean_ok)
     # ---- detection
